@@ -34,6 +34,7 @@ type FuncSpec struct {
 	Mode     string
 	Requires []*Clause
 	Ensures  []*Clause
+	Assumes  []*Clause
 	Loops    []*LoopSpec
 	Waive    []*Waiver
 	MayPanic string
@@ -52,7 +53,7 @@ type FuncSpec struct {
 }
 
 func (s *FuncSpec) hasContract() bool {
-	return s != nil && (len(s.Requires) > 0 || len(s.Ensures) > 0 || s.Opaque || s.Trusted || s.Extern)
+	return s != nil && (len(s.Requires) > 0 || len(s.Ensures) > 0 || len(s.Assumes) > 0 || s.Opaque || s.Trusted || s.Extern)
 }
 
 type Clause struct {
@@ -305,6 +306,11 @@ func (S *Specs) parseClause(file string, line int, cur *FuncSpec, word, rest str
 	case "ensures":
 		if c := mk(rest); c != nil {
 			cur.Ensures = append(cur.Ensures, c)
+		}
+	case "assumes":
+		// a postcondition callers may rely on that is NOT proved (listed as an assumption)
+		if c := mk(rest); c != nil {
+			cur.Assumes = append(cur.Assumes, c)
 		}
 	case "faults":
 		cur.Faults = append(cur.Faults, strings.Fields(rest)...)
